@@ -9,7 +9,7 @@ ID = "C11"
 META = {
     "technique": "runtime monitoring: every return value of the public queue methods checked against a sorted-multiset reference model; bounded operation alphabet enumerated exhaustively, long random histories with JSON round trips",
     "design_ref": "DESIGN.md section 6 C11",
-    "level_text": "exploration, with a finite sub-space enumerated completely: all operation sequences up to length 5 (quick) / 6 (thorough) over {add(ts in 0..2 x Unplug/Plugin/Recompute), get_event, get_current_events(t in 0..2)} with len/empty/last-timestamp queried after every step, plus random histories of 50-300 operations with up to 40 timestamps, bulk adds, duplicates and JSON round trips; every returned list is mutated by the client after judging; queues of up to 4100 pending events partly drained; a fifth of the random histories run with warnings turned into errors (a retrieval that raises must not consume events)",
+    "level_text": "exploration, with a finite sub-space enumerated completely: all operation sequences up to length 5 (quick) / 6 (thorough) over {add(ts in 0..2 x Unplug/Plugin/Recompute), get_event, get_current_events(t in 0..2)} with len/empty/last-timestamp queried after every step, plus random histories of 50-300 operations with up to 40 timestamps, bulk adds, duplicates and JSON round trips; every returned list is mutated by the client after judging; queues of up to 4100 pending events partly drained; a fifth of the random histories run with warnings turned into errors (a retrieval that raises must not consume events); user events (an unserialisable subclass, Event-like objects), dumps and bulk insertions failing part-way",
     "level_note": "model identity is the descriptive key (timestamp, precedence, session id), so it survives a JSON round trip; ties among equal keys are free; get_event on an empty queue is outside the property and never issued",
 }
 LEVEL = "exploration"
